@@ -329,11 +329,15 @@ def metaFor (r : RawRows) (cached : Option ResultMeta) : M (MetaSource × Result
   match r.presence, cached with
   | .noMetadata, some c => pure (MetaSource.cached, c)
   | .noMetadata, none => pure (MetaSource.mockEmpty, (⟨none, 0, []⟩ : ResultMeta))
-  | p, _ => tag "meta" (do
-    let newId ← optRead (p = .withNewId) (tag "newid" readShortBytes)
-    let gts ← optRead r.globalSpec (tag "gts" deserTableSpec)
-    let cols ← deserColSpecs gts r.colCount
-    pure (MetaSource.parsed, (⟨newId, r.colCount, cols⟩ : ResultMeta)))
+  | p, _ => do
+    -- `make_deserialized_metadata`: the deserializer runs on the frame, then `cart.slice_ref(raw_rows)` (result.rs:353)
+    let sm ← tracked (tag "meta" (do
+      let newId ← optRead (p = .withNewId) (tag "newid" readShortBytes)
+      let gts ← optRead r.globalSpec (tag "gts" deserTableSpec)
+      let cols ← deserColSpecs gts r.colCount
+      pure (MetaSource.parsed, (⟨newId, r.colCount, cols⟩ : ResultMeta))))
+    sliceRef sm.2
+    pure sm.1
 
 /-- `RawMetadataAndRawRows::deserialize_metadata` (`cached` = the metadata the caller passed, if any). -/
 def deserMetadata (r : RawRows) (cached : Option ResultMeta) : M DeserRows := do
@@ -349,6 +353,7 @@ def readCells : Nat → Nat → Bytes → Except (Nat × String) (List (Option B
   | n + 1, idx, buf =>
     match readBytesOpt { buf := buf } with
     | (.err k, _) => .error (idx, k)
+    | (.panic k, _) => .error (idx, "PANIC " ++ k)
     | (.ok c, s) =>
       match readCells n (idx + 1) s.buf with
       | .error e => .error e
@@ -375,9 +380,14 @@ inductive ResultResp where
 
 /-- `result::deserialize_with_features`. -/
 def deserResult (f : Features) : M ResultResp := do
-  let kind ← tag "result.kind" readInt
+  let kt ← tracked (tag "result.kind" readInt)
+  let kind := kt.1
   if kind = 1 then pure .void
-  else if kind = 2 then do let r ← deserRawRows f; pure (.rows r)
+  else if kind = 2 then do
+    -- `deser_rows(buf_bytes.slice_ref(buf), …)` (result.rs:1064)
+    sliceRef kt.2
+    let r ← deserRawRows f
+    pure (.rows r)
   else if kind = 3 then do let ks ← tag "setks" readString; pure (.setKeyspace ks)
   else if kind = 4 then do let p ← deserPrepared f; pure (.prepared p)
   else if kind = 5 then do let sc ← deserSchemaChange; pure (.schemaChange sc)
